@@ -56,6 +56,82 @@ Theorem C14_threshold_value_gen : forall f,
 Proof. intros f H. unfold agg_thr. gen_auto. Qed.
 Print Assumptions C14_threshold_value_gen.
 
+(* ================= second tier: FromPackedFee and consensus.Median =================
+   FromPackedFee (commit/chainfee/types.go) builds its mask with `for i := 0; i < 112; i++ { SetBit }`; the result
+   struct is the pair (ExecutionFeePriceUSD, DataAvFeePriceUSD).  A negative bit position would panic: the generated
+   function is in the res monad and the theorem shows it is always Ok.
+   Median (internal/plugincommon/consensus/consensus.go) is generic: the comparator is a parameter, the zero value
+   of the type parameter too; sort.Slice is read as the framework's sort_by with "a <= b := not (b < a)";
+   vals[len/2] is a checked index (Panic when out of range): the theorem shows it is always Ok. *)
+Fixpoint ones_acc (n : nat) (i acc : Z) : Z :=
+  match n with O => acc | S n' => ones_acc n' (i + 1) (Z.setbit acc i) end.
+
+Lemma gen_from_packed_loop_spec : forall p n i acc,
+  (0 <= i)%Z ->
+  gen_from_packed_loop p n i acc = Ok (Z.land p (ones_acc n i acc), Z.shiftr p 112).
+Proof.
+  intros p. induction n as [|n IH]; intros i acc Hi; gen_step gen_from_packed_loop; cbn [ones_acc]; [reflexivity|].
+  destruct (Z.ltb_spec i 0); [lia|]. apply IH. lia.
+Qed.
+
+Theorem gen_from_packed_eq : forall p, gen_from_packed p = Ok (from_packed p).
+Proof.
+  intros p. unfold gen_from_packed, from_packed, ones112. cbv zeta.
+  rewrite gen_from_packed_loop_spec by lia.
+  replace (ones_acc (Z.to_nat (112 - 0)) 0 0) with (2 ^ 112 - 1)%Z by (vm_compute; reflexivity).
+  reflexivity.
+Qed.
+Print Assumptions gen_from_packed_eq.
+
+(* C14_units_packing with both generated functions: unpacking what was packed gives the two prices back *)
+Theorem C14_units_roundtrip_gen : forall da ex,
+  (0 <= ex < 2 ^ 112)%Z -> (0 <= da)%Z -> gen_from_packed (gen_to_packed da ex) = Ok (ex, da).
+Proof.
+  intros da ex He Hd. rewrite gen_from_packed_eq, gen_to_packed_eq.
+  f_equal. apply units_packing; assumption.
+Qed.
+Print Assumptions C14_units_roundtrip_gen.
+
+(* ---------- Median ---------- *)
+Theorem gen_median_spec : forall (T : Type) (zero : T) (less : T -> T -> bool) (vals : list T),
+  gen_median zero vals less =
+  Ok (nth (Nat.div2 (length vals)) (sort_by (fun a b => negb (less b a)) vals) zero).
+Proof.
+  intros T zero less vals. unfold gen_median. cbv zeta.
+  destruct vals as [|v vals].
+  - reflexivity.
+  - set (l := v :: vals). cbn [length]. destruct (Z.eqb_spec (Z.of_nat (S (length vals))) 0); [lia|].
+    rewrite Nat2Z.id. change (S (length vals)) with (length l). rewrite slice_copy_fresh.
+    set (s := sort_by (fun a b => negb (less b a)) l).
+    assert (Hl : length s = length l) by apply sort_by_length.
+    rewrite (slice_at_spec s _ zero).
+    + rewrite half_nat, Hl. reflexivity.
+    + rewrite Hl. unfold l. cbn [length]. rewrite Z.quot_div_nonneg by lia.
+      split; [apply Z.div_pos; lia|apply Z.div_lt_upper_bound; lia].
+Qed.
+Print Assumptions gen_median_spec.
+
+(* (a) at big integers with the comparator the callers pass (a.Cmp(b) == -1, i.e. a < b): the modelled medianZ *)
+Theorem gen_median_eq : forall l, gen_median 0%Z l Z.ltb = Ok (medianZ l).
+Proof.
+  intros l. rewrite gen_median_spec. unfold medianZ.
+  rewrite (sort_by_ext (fun a b => negb (Z.ltb b a)) Z.leb); [reflexivity|].
+  intros a b. lia.
+Qed.
+Print Assumptions gen_median_eq.
+
+(* (b) C14_median_robust over the generated definition: with at most f faulty values among at least 2f+1, the
+   median lies between honest values *)
+Theorem C14_median_robust_gen : forall (xs hs bs : list Z) (f : nat) (lo hi : Z),
+  Permutation xs (hs ++ bs) -> (length bs <= f)%nat -> (2 * f + 1 <= length xs)%nat ->
+  (forall h, In h hs -> lo <= h <= hi)%Z ->
+  exists m, gen_median 0%Z xs Z.ltb = Ok m /\ (lo <= m <= hi)%Z.
+Proof.
+  intros xs hs bs f lo hi P Hb Hn Hh. exists (medianZ xs). split; [apply gen_median_eq|].
+  exact (median_robust xs hs bs f lo hi P Hb Hn Hh).
+Qed.
+Print Assumptions C14_median_robust_gen.
+
 Example C14_gen_nonvacuous :
   gen_deviates 1010 1000 9999999 = true /\ gen_deviates 1010 1000 10000000 = false /\
   gen_deviates 0 5 1 = true /\ gen_deviates 0 0 1 = false /\
